@@ -193,6 +193,62 @@ func c07Trees(c *Ctx) []node {
 	return roots
 }
 
+// c07Cyclic: structures that contain themselves (directly, through a child, through a Condition's
+// expression). Every path is finite, so Traverse is as well defined as on a tree: passing through the
+// same Stack twice is legal. Nothing here renders or dumps the structure (that would never end).
+func c07Cyclic(c *Ctx) int {
+	n := 0
+	build := func(shape int) stackage.Stack {
+		root := stackage.And().Push("r0")
+		switch shape {
+		case 0: // root holds itself
+			root.Push(root, "r2")
+		case 1: // root -> child -> root
+			child := stackage.Or().Push("c0")
+			root.Push(child, "r2")
+			child.Push(root)
+		case 2: // root -> Condition(root)
+			root.Push(stackage.Cond("loop", stackage.Eq, root), "r2")
+		case 3: // root -> alias of child -> Condition(root)
+			child := stackage.List().Push("c0")
+			root.Push(StackAlias(child), "r2")
+			child.Push(stackage.Cond("loop", stackage.Ne, root))
+		}
+		return root
+	}
+	same := func(a, b any) bool {
+		sa, oka := refAsStack(a)
+		sb, okb := refAsStack(b)
+		if oka || okb {
+			return oka && okb && sa.Addr() == sb.Addr()
+		}
+		ca, oka := refAsCond(a)
+		cb, okb := refAsCond(b)
+		if oka || okb {
+			return oka && okb && ca.Addr() == cb.Addr()
+		}
+		return a == b
+	}
+	for shape := 0; shape < 4; shape++ {
+		root := build(shape)
+		for _, p := range c07Paths(5, 0, 2) {
+			n++
+			c.Transitions.Add(1)
+			var gv any
+			var gok bool
+			if pn := noPanic(func() { gv, gok = root.Traverse(p...) }); pn != "" {
+				c.Violation("panic:cyclic", fmt.Sprintf("Traverse%v on a structure that contains itself (shape %d) panicked: %s", p, shape, pn), nil, len(p))
+				continue
+			}
+			wv, wok, _ := refTraverse(root, p)
+			if gok != wok || !same(gv, wv) {
+				c.Violation("cyclic-structure", fmt.Sprintf("Traverse%v on a structure that contains itself (shape %d: 0 root in root, 1 root in child in root, 2 root as a Condition's expression in root, 3 through an alias) = (%T,%v) but the stepwise Index descent gives (%T,%v)", p, shape, gv, gok, wv, wok), nil, len(p))
+			}
+		}
+	}
+	return n
+}
+
 // c07Chains: the long regime. Single-child chains of depth 6..14 whose links rotate through Stack,
 // alias, pointer to alias and Condition-holding-a-Stack, ending in two leaves; paths: every prefix of
 // the way down, every such prefix with one index changed (to 1 and to -1), and one step beyond a leaf.
@@ -317,6 +373,7 @@ func init() {
 			}
 		}
 		c.Bound["chain_depths"] = len(chains)
+		c.Bound["paths_on_self_containing_structures"] = c07Cyclic(c)
 		c.Traces.Store(c.Transitions.Load())
 		c.Evals.Store(c.Transitions.Load())
 		c.Sample(c07Case{trees[0], "default", paths[len(paths)/2]})
